@@ -77,13 +77,21 @@ def selftest_session(sess):
     v, _ = tlc.validate_traces('Trace_Session', logs, shards=1)
     if list(target) not in v[0].fails:
         raise MachineryError(f'binding self-test failed: corrupted tree observation accepted ({v[0]})')
-    if t2 and list(t2) not in v[1].fails:
+    if t2 and list(t2) not in v[1].fails and [t2[0], 'base.grid'] not in v[1].fails:
         raise MachineryError(f'binding self-test failed: corrupted export grid accepted ({v[1]})')
 
 
-def validate_sessions(run, sessions, *, symptom_of=None, shards=None, interesting=None):
+def validate_sessions(run, sessions, *, symptom_of=None, shards=None, interesting=None, relevant=None):
     """Validates all session logs; reports each failing clause.  symptom_of(clause, event, session) -> symptom name used
-    for matching known findings (default: the clause name)."""
+    for matching known findings (default: the clause name).
+
+    relevant: the clause-name prefixes that belong to the property under check.  The trace specification checks much more
+    than any single property (the tree, token categories, the measure index, the page index ... after every line); a failing
+    clause that belongs to ANOTHER property (or to no listed property) is not a violation of this one: it is counted and
+    printed as NOTE-OUTSIDE-PROPERTY and does not change the verdict.  'blocked' = the row machine does not accept the line."""
+    def is_rel(clause):
+        return relevant is None or any(clause == r or clause.startswith(r) for r in relevant)
+    outside = {}
     logs = [s['log'] for s in sessions]
     verdicts, tl = tlc.validate_traces('Trace_Session', logs, shards=shards, timeout=2400)
     for t in tl:
@@ -92,6 +100,9 @@ def validate_sessions(run, sessions, *, symptom_of=None, shards=None, interestin
     nfail = 0
     for s, v in zip(sessions, verdicts):
         classes = set(s.get('classes', ()))
+        if v.reached != v.length and not is_rel('blocked'):
+            outside['blocked'] = outside.get('blocked', 0) + 1
+            continue
         if v.reached != v.length:
             ev = s['log'][v.reached] if v.reached < len(s['log']) else {}
             nfail += 1
@@ -101,6 +112,9 @@ def validate_sessions(run, sessions, *, symptom_of=None, shards=None, interestin
             continue
         seen = set()
         for pos, clause in v.fails:
+            if not is_rel(clause):
+                outside[clause] = outside.get(clause, 0) + 1
+                continue
             ev = s['log'][pos - 1]
             sym = symptom_of(clause, ev, s) if symptom_of else clause
             cl = set(classes) | set(ev.get('_classes', ()))
@@ -113,4 +127,17 @@ def validate_sessions(run, sessions, *, symptom_of=None, shards=None, interestin
                            'tags': s.get('tags'), 'seed': s.get('seed')},
                           f"clause {clause} fails at event {pos}: {describe_event(ev)[:400]} | document: {s.get('text', '')[:300]!r}",
                           classes=cl, symptom=sym)
+    if outside:
+        for c, n in sorted(outside.items()):
+            print(f'NOTE-OUTSIDE-PROPERTY: property={run.pid} clause={c} failed {n} time(s); it belongs to another property (or to behaviour '
+                  f'no listed property covers) and is not counted here')
+        run.note('outside_property_deviations', outside)
     return nfail
+
+
+def relevant_for(pid):
+    """clause-name prefixes of Trace_Session that belong to a property (harness/checks/relevant.json)."""
+    import json
+    import os
+    with open(os.path.join(os.path.dirname(__file__), 'relevant.json')) as f:
+        return json.load(f).get(pid)
